@@ -196,8 +196,8 @@ class Style:
             (
                 color,
                 bgcolor,
-                None,
-                None,
+                0,
+                0,
                 None,
             )
         )
@@ -397,7 +397,9 @@ class Style:
         style._set_attributes = self._set_attributes
         style._link = self._link
         style._link_id = f"{time()}-{randint(0, 999999)}" if self._link else ""
-        style._hash = self._hash
+        style._hash = hash(
+            (None, None, style._attributes, style._set_attributes, style._link)
+        )
         style._null = False
         return style
 
@@ -592,7 +594,15 @@ class Style:
         style._set_attributes = self._set_attributes
         style._link = link
         style._link_id = f"{time()}-{randint(0, 999999)}" if link else ""
-        style._hash = self._hash
+        style._hash = hash(
+            (
+                style._color,
+                style._bgcolor,
+                style._attributes,
+                style._set_attributes,
+                link,
+            )
+        )
         style._null = False
         return style
 
@@ -652,7 +662,15 @@ class Style:
         new_style._set_attributes = self._set_attributes | style._set_attributes
         new_style._link = style._link or self._link
         new_style._link_id = style._link_id or self._link_id
-        new_style._hash = style._hash
+        new_style._hash = hash(
+            (
+                new_style._color,
+                new_style._bgcolor,
+                new_style._attributes,
+                new_style._set_attributes,
+                new_style._link,
+            )
+        )
         new_style._null = self._null or style._null
         return new_style
 
